@@ -30,10 +30,21 @@ import (
 	"time"
 )
 
-const (
-	verifDir = "/verif"
-	repoDir  = "/repo"
-)
+const verifDir = "/verif"
+
+// repoDir is the tree under test. VERIF_REPO_DIR and VERIF_OUT_DIR exist only so
+// that the sensitivity regression (tools/seeded_regress.py) can run the checks
+// against scratch worktrees carrying a seeded change, in parallel, without
+// touching /repo or the evidence of the real checks.
+var repoDir = envOr("VERIF_REPO_DIR", "/repo")
+var outDir = envOr("VERIF_OUT_DIR", verifDir)
+
+func envOr(k, d string) string {
+	if v := os.Getenv(k); v != "" {
+		return v
+	}
+	return d
+}
 
 type propInfo struct {
 	ID        string
@@ -187,6 +198,7 @@ type found struct {
 	Run       int64  `json:"run"`
 	race      bool   // found by (and replayable with) the race-detector build
 	isRace    bool   // the violation is a race report
+	crash     bool   // the run killed the worker process inside the code under test
 }
 
 type workerResult struct {
@@ -387,16 +399,16 @@ func check(id, tier string) int {
 	seed := seedFromEnv()
 	fmt.Printf("verifsim: property=%s tier=%s VERIF_SEED=%d\n", id, tier, seed)
 	wantRace := p.Tier == "S" && p.RaceShare > 0
-	sc := prepare(p.Tier == "S", workerPkg(p), wantRace)
+	sc := prepare(true, workerPkg(p), wantRace)
 	defer sc.cleanup()
 	buildS := time.Since(start).Seconds()
 	if sc.simgen != "" {
 		fmt.Println(sc.simgen)
 	}
-	replayDir := filepath.Join(verifDir, "replays", id)
+	replayDir := filepath.Join(outDir, "replays", id)
 	os.MkdirAll(replayDir, 0o755)
 	rewriteTest := "not run in this tier"
-	if p.Tier == "S" && tier == "thorough" {
+	if tier == "thorough" {
 		// the rewrite must preserve sequential behaviour: the repository's own tests,
 		// on the rewritten tree, with the simulator inactive
 		out, err := run(sc.typ, goEnv(), "go", "test", "-vet=off", "-count=1", "./...")
@@ -489,6 +501,7 @@ func check(id, tier string) int {
 	os.WriteFile(knownFile, kb, 0o644)
 	results := make([]workerResult, len(jobs))
 	troubles := make([]string, len(jobs))
+	crashes := make([]*found, len(jobs))
 	var wg sync.WaitGroup
 	for i, j := range jobs {
 		wg.Add(1)
@@ -496,7 +509,7 @@ func check(id, tier string) int {
 			defer wg.Done()
 			hf := filepath.Join(sc.dir, fmt.Sprintf("hashes.%d", i))
 			cmd := exec.Command(j.bin, "-prop", id, "-seed", strconv.FormatInt(seed, 10), "-from", strconv.FormatInt(j.from, 10), "-to", strconv.FormatInt(j.to, 10),
-				"-tier", tier, "-budget", budget.String(), "-out", replayDir, "-hashes", hf, "-known", knownFile)
+				"-tier", tier, "-budget", budget.String(), "-out", replayDir, "-hashes", hf, "-known", knownFile, "-progress", filepath.Join(sc.dir, fmt.Sprintf("progress.%d", i)))
 			cmd.Env = append(os.Environ(), "GORACE=halt_on_error=0 exitcode=0")
 			var o, e bytes.Buffer
 			cmd.Stdout, cmd.Stderr = &o, &e
@@ -512,6 +525,23 @@ func check(id, tier string) int {
 			}
 			line := lastLine(o.String())
 			if jerr := json.Unmarshal([]byte(line), &results[i]); jerr != nil {
+				// the process died. If the Go runtime killed it inside the code under test
+				// (stack overflow, concurrent map access, ...) that is what the property
+				// forbids, not trouble of ours: attribute it to the run in flight.
+				if sig := crashSignature(e.String()); sig != "" {
+					if pb, perr := os.ReadFile(filepath.Join(sc.dir, fmt.Sprintf("progress.%d", i))); perr == nil && len(pb) == 8 {
+						var run int64
+						for k := 0; k < 8; k++ {
+							run |= int64(pb[k]) << (8 * k)
+						}
+						file := filepath.Join(replayDir, fmt.Sprintf("%s-seed%d-run%d-crash.json", id, seed, run))
+						if _, derr := runCmd(j.bin, "-prop", id, "-seed", strconv.FormatInt(seed, 10), "-tier", tier, "-dumprun", strconv.FormatInt(run, 10), "-outfile", file); derr == nil {
+							crashes[i] = &found{Signature: sig, Detail: tail(e.String(), 1500), Replay: file, Run: run, race: j.race, crash: true}
+							results[i] = workerResult{Counts: map[string]int64{}}
+							return
+						}
+					}
+				}
 				troubles[i] = fmt.Sprintf("worker died: %v\n%s\n%s", err, tail(o.String(), 2000), tail(e.String(), 4000))
 				return
 			}
@@ -529,6 +559,11 @@ func check(id, tier string) int {
 	for _, t := range troubles {
 		if t != "" {
 			fail2("%s", t)
+		}
+	}
+	for _, c := range crashes {
+		if c != nil {
+			all = append(all, *c)
 		}
 	}
 
@@ -587,6 +622,12 @@ func check(id, tier string) int {
 			bin = sc.race
 		}
 		code, out, errOut := replayOnce(bin, id, v.Replay, false)
+		if v.crash {
+			if crashSignature(errOut) != v.Signature {
+				fail2("a worker crash did not reproduce when run %d was re-executed from %s: %s", v.Run, v.Replay, tail(errOut, 1500))
+			}
+			code = 3
+		}
 		if code != 3 {
 			fail2("a violation did not reproduce when its replay file %s was run in a fresh process (nondeterminism in the harness): %s %s", v.Replay, out, tail(errOut, 2000))
 		}
@@ -661,9 +702,9 @@ func check(id, tier string) int {
 		"property_id": id, "tier": tier, "seed": seed, "level": "exploration", "coverage": cov,
 		"assumptions": p.Assume, "wall_s": wall, "violations": nviol,
 	}
-	os.MkdirAll(filepath.Join(verifDir, "evidence"), 0o755)
+	os.MkdirAll(filepath.Join(outDir, "evidence"), 0o755)
 	b, _ := json.MarshalIndent(ev, "", " ")
-	if err := os.WriteFile(filepath.Join(verifDir, "evidence", id+".json"), b, 0o644); err != nil {
+	if err := os.WriteFile(filepath.Join(outDir, "evidence", id+".json"), b, 0o644); err != nil {
 		fail2("%v", err)
 	}
 	fmt.Printf("verifsim: %s %s: %d runs (%d under the race detector), %d steps, %d distinct interleavings, %d violations, %d known findings, %.1fs\n",
@@ -723,6 +764,44 @@ func minimiseRace(sc *scratch, id, file, sig, detail string) (string, string) {
 		return file, detail
 	}
 	return dst, curDetail
+}
+
+func runCmd(bin string, args ...string) (string, error) {
+	return run(verifDir, os.Environ(), bin, args...)
+}
+
+// crashSignature recognises a death of the process inside the code under
+// test from the Go runtime's report, and names it; "" when the report does not
+// implicate the code under test.
+func crashSignature(stderr string) string {
+	i := strings.Index(stderr, "fatal error: ")
+	msg := ""
+	if i >= 0 {
+		msg = stderr[i:]
+		if j := strings.Index(msg, "\n"); j >= 0 {
+			msg = msg[:j]
+		}
+	} else if strings.Contains(stderr, "goroutine stack exceeds") {
+		msg = "fatal error: stack overflow"
+	} else {
+		return ""
+	}
+	fn := ""
+	for _, l := range strings.Split(stderr, "\n") {
+		l = strings.TrimSpace(l)
+		if strings.HasPrefix(l, "gopkg.in/typ.v4/") {
+			fn = l
+			if k := strings.LastIndex(fn, "("); k > 0 {
+				fn = fn[:k]
+			}
+			fn = shortFunc(fn)
+			break
+		}
+	}
+	if fn == "" {
+		return ""
+	}
+	return "crash: " + msg + " in=" + fn
 }
 
 func annotateReplay(path, sig, detail string) {
@@ -831,7 +910,7 @@ func replayCmd(file string) int {
 	if p == nil {
 		fail2("replay file names unknown property %q", meta.Property)
 	}
-	sc := prepare(p.Tier == "S", workerPkg(p), meta.Race)
+	sc := prepare(true, workerPkg(p), meta.Race)
 	defer sc.cleanup()
 	bin := sc.plain
 	if meta.Race {
@@ -841,6 +920,11 @@ func replayCmd(file string) int {
 	fmt.Print(out)
 	if meta.Race && errOut != "" {
 		fmt.Print(errOut)
+	}
+	if sig := crashSignature(errOut); sig != "" && strings.HasPrefix(meta.Violation.Signature, "crash") {
+		fmt.Print(tail(errOut, 1500))
+		fmt.Printf("\nVIOLATION property=%s replay=%s\n  signature: %s\n", meta.Property, file, sig)
+		return 1
 	}
 	switch code {
 	case 3:
